@@ -171,7 +171,7 @@ static int numeric(unsigned seed, int count)
             S.cyclic_corner_element() = Ac;
         std::vector<double> b(n), x(n), t1(n), t2(n), x2(n);
         for (int i = 0; i < n; i++)
-            b[i] = U(gen) * sc[i];
+            b[i] = (c % 4 == 1 && i < n / 2) || (c % 4 == 3 && i >= n / 2 && i < n - 1) ? 0.0 : U(gen) * sc[i]; // also sparse right-hand sides (exact zeros in front / behind)
         x = b;
         S.solveInPlace(x.data(), t1.data(), t2.data());
         std::string fail;
